@@ -181,3 +181,20 @@ def classify_store(store, state_name, loop, species_bound='num_species', reactio
                 return 'queue', (m, amt, r)
             return 'other', 'queue update indices do not match: %s' % util.stmt_key(store)
     return 'other', 'unrecognised state update: %s' % util.stmt_key(store)
+
+
+def single_precision_decls(f):
+    """C declarations of single-precision type (`cdef float x`, `float*`, a float argument) inside a function: values that pass through
+    such a variable are rounded to 24 bits"""
+    out = []
+    for a in f.args.args:
+        if isinstance(a.annotation, ast.Constant) and str(a.annotation.value).replace(' ', '') in ('float', 'float*'):
+            out.append((a.arg, f))
+    for n in ast.walk(f):
+        if isinstance(n, ast.AnnAssign) and isinstance(n.annotation, ast.Constant) and isinstance(n.target, ast.Name) and \
+                str(n.annotation.value).replace(' ', '') in ('float', 'float*', 'float[:]', 'np.ndarray[np.float32_t,ndim=1]'):
+            out.append((n.target.id, n))
+        if isinstance(n, ast.Call) and isinstance(n.func, ast.Name) and n.func.id == '__cast__' and isinstance(n.args[0], ast.Constant) and \
+                str(n.args[0].value).replace(' ', '') in ('float', 'float*'):
+            out.append(('<float> cast', n))
+    return out
